@@ -24,6 +24,25 @@ def gen(rng, tier):
     return antgen.gen_antenna(rng, max_pulses=14 if tier == 'quick' else 40)
 
 
+def gen_many_objects(rng):
+    """two dipoles of different segment length and radius, separated in the object list by 255 .. 300 one-segment
+    parasitic stubs (no pulses of their own): object numbers beyond 256 and 2 x 7 pulses — bookkeeping by object
+    number (flags, masks, copy groups) in a narrow integer type shows only for such structures"""
+    f = 10 ** rng.uniform(1.0, 1.6)
+    lam = antgen.C / f
+    seg = lam / 30
+    n = 8
+    k = rng.choice([255, 255, 256, 300])
+    wires = [dict(nseg=n, p0=[0.0, -seg * n / 2, 0.0], p1=[0.0, seg * n / 2, 0.0], r=seg / 60)]
+    for i in range(k):
+        x = 3 * seg + (i % 20) * 2.5 * seg
+        z = (i // 20) * 2.5 * seg + 3 * seg
+        wires.append(dict(nseg=1, p0=[x, 0.0, z], p1=[x, 0.7 * seg, z], r=seg / 100))
+    s2 = seg * rng.choice([0.7, 1.3])
+    wires.append(dict(nseg=n, p0=[-4 * seg, -s2 * n / 2, 0.0], p1=[-4 * seg, s2 * n / 2, 0.0], r=seg / 25))
+    return dict(f=f, ground=False, family='many-objects', lam=lam, seg=seg, wires=wires, fresh=True)
+
+
 def evaluate(d, ant):
     """returns (algo_bad, spec_bad, stats)"""
     m = antgen.build(ant)
@@ -91,7 +110,7 @@ def run(ck):
     worst = 0.0
     progs = 0
     for i in range(n):
-        ant = gen(rng, ck.tier)
+        ant = gen_many_objects(rng) if (i == 2 or i % 100 == 57) else gen(rng, ck.tier)
         try:
             a, s, st = evaluate(d, ant)
         except Exception as e:
@@ -113,7 +132,7 @@ def run(ck):
     ck.cov['disagreements_checked'] = len(dis)
     ck.stats['disagreements'] = len(dis)
     ck.stats['worst_deviation_from_spec'] = worst
-    ck.cov['rule'] = ('antennas from the shared generator plus arcs, helices and tapered wires; every pulse pair compared with the '
+    ck.cov['rule'] = ('antennas from the shared generator plus arcs, helices and tapered wires, and a structure of 257 .. 302 objects; every pulse pair compared with the '
                       'algorithm model, every pair >= 2.5 segments apart with the adaptive-quadrature specification at 1e-4 of the '
                       'potential-term scale; "programs" = number of far pairs validated; distinct = distinct (family, ground, N, pulse kinds)')
     ck.assumptions += ['the adaptive Simpson rule of the Lean specification (tolerance 1e-9, depth 40) is accurate to far better than 1e-4',
